@@ -20,6 +20,15 @@ class HarnessError(Exception):
     pass
 
 
+class PrefixFailure(Exception):
+    """A valid request of a seed world's prefix was rejected by the library."""
+
+    def __init__(self, action, res):
+        super().__init__(f"prefix action {action} failed: {res.symptom()}")
+        self.action = action
+        self.res = res
+
+
 # ======================================================================================
 # single-process primitives (also used by the replayer)
 
@@ -35,11 +44,14 @@ def build(wspec, history, D):
     w = World.build(wspec)
     m = Model(wspec, D=wspec.get("D", D))
     m.phase_sign = phase_sign()
+    npref = len(wspec.get("prefix", []))
     history = [[a, [], "ok"] for a in wspec.get("prefix", [])] + list(history)
-    for item in history:
+    for k_, item in enumerate(history):
         a, script = item[0], item[1]
         dv = DimView(w)
         res = w.apply(a, script)
+        if k_ < npref and not res.ok:
+            raise PrefixFailure(a, res)
         if len(item) > 2 and item[2] != res.symptom():
             raise HarnessError(f"replay diverged at {a}: recorded {item[2]} now {res.symptom()}")
         got = [c["chosen"] for c in res.calls]
@@ -291,6 +303,21 @@ def _expand_state_inner(task):
         for a, is_core in plan:
             valid = m0.enabled(a, dv, o0)
             fault = spec.get("faults") and not valid and not is_core
+            if twin == "c18" and not valid and not is_core and a[0] in ("op", "kraus", "povm") and a[1].startswith("env:"):
+                # an invalid request (operand of another envelope): both twins must reject it alike
+                from .judge import _viol, Transition
+                wp, wt_ = w0.clone(), w0t.clone()
+                rp, rt_ = wp.apply(a, []), wt_.apply(a, [])
+                out["n_trans"] += 1
+                out["n_probe"] += 1
+                out["twin_compared"] += 1
+                if rp.ok != rt_.ok:
+                    Tf = Transition(a=a, script=[], res=rp, m0=m0, m1=m0, o0=o0, o1=None, exp={}, canon0=canon0)
+                    v = _viol("C18", "addressing", Tf, "accepts-differently",
+                              f"foreign operand: equal-valued world {rp.symptom()}, distinct-valued twin {rt_.symptom()}")
+                    v["witness"] = {"world": spec["worlds"][wi][0], "history": history + [[a, [], rp.symptom()]]}
+                    out["violations"].append(v)
+                continue
             if not valid and not fault:
                 out["skipped_disabled"] += 1
                 continue
@@ -346,6 +373,16 @@ def _expand_state_inner(task):
                     out["children"].append((history + [hist_item], T.canon1))
         for k in out["outcomes"]:
             out["outcomes"][k] = sorted(out["outcomes"][k])
+    except PrefixFailure as ex:
+        # the library rejected a valid request while the seed world was being prepared
+        from .judge import _owner_raise, signature
+        prop_, clause_ = _owner_raise(ex.action)
+        out["violations"].append({"sig": signature(prop_, clause_, ex.action, None, wspec.get("contraction", True), ex.res.symptom()),
+                                  "detail": f"seed-world preparation: {ex.res.exc_msg}",
+                                  "witness": {"world": spec["worlds"][wi][0], "history": [[ex.action, [], ex.res.symptom()]]}})
+        out["poisoned"][prop_] = out["poisoned"].get(prop_, 0) + 1
+        out["flags"] = (False, False, False, False)
+        out["layout"] = "prefix-failed"
     except HarnessError as ex:
         out["error"] = f"HarnessError: {ex}"
     except Exception as ex:  # noqa: BLE001
